@@ -331,7 +331,7 @@ func crashSummary(stderr string) string {
 	for _, l := range lines {
 		if strings.HasPrefix(l, "panic:") || strings.HasPrefix(l, "fatal error:") || strings.Contains(l, "WARNING: DATA RACE") {
 			keep = append(keep, strings.TrimSpace(l))
-		} else if strings.Contains(l, "/repo/") && len(keep) < 12 {
+		} else if strings.Contains(l, RepoRoot()+"/") && len(keep) < 12 {
 			keep = append(keep, strings.TrimSpace(l))
 		}
 		if len(keep) >= 12 {
